@@ -351,6 +351,7 @@ pub fn run(args: &Args) {
         }),
     );
 
+    size_sweep(&mut rep, args, &ev, &strict);
     for i in 0..args.n {
         let mut rng = Rng::derive(args.seed, args.shard + 4000, i);
         match i % 4 {
@@ -364,6 +365,70 @@ pub fn run(args: &Args) {
         rep.add(&format!("ref_calls/{}", k), *v);
     }
     emit_report(args, &rep);
+}
+
+/// Built-ins over arrays, strings and objects of every size 0..=130 and around the powers of
+/// two up to 1024 (strategy switches at size thresholds), against the reference functions.
+fn size_sweep(rep: &mut Report, args: &Args, ev: &Evaluator, strict: &Opts) {
+    const EXPRS: [&str; 34] = [
+        "sort(desc)", "sort(saw)", "sort(strs)", "sort_by(recs, &k)[*].id", "sort_by(recs, &s)[*].id", "sort_by(recs, &id)[-1].id", "max_by(recs, &k).k", "min_by(recs, &k).k",
+        "max_by(recs, &id).id", "min_by(recs, &s).s", "reverse(desc)", "reverse(str)", "sum(desc)", "avg(saw)", "max(saw)", "min(desc)", "max(strs)", "min(strs)", "length(desc)",
+        "length(str)", "length(obj)", "join('-', strs)", "keys(obj)", "values(obj)", "merge(obj, obj2)", "map(&k, recs)", "map(&[id], recs)[-1]", "contains(desc, `0`)",
+        "contains(str, 'yz')", "starts_with(str, 'ab')", "ends_with(str, 'z')", "to_array(desc)[-1]", "not_null(none, desc)[0]", "to_string(saw)",
+    ];
+    let mut sizes: Vec<usize> = (0..=130).collect();
+    sizes.extend_from_slice(&[255, 256, 257, 511, 512, 513, 1000, 1023, 1024, 1025]);
+    let trees: Vec<_> = EXPRS.iter().map(|t| parse(t, strict).expect("sweep expression parses")).collect();
+    for (si, &n) in sizes.iter().enumerate() {
+        if si as u64 % args.shards != args.shard {
+            continue;
+        }
+        let word = |i: usize| format!("{}{}", ["b", "a", "é", "B", ""][i % 5], i % 7);
+        let mut obj = Map::new();
+        let mut obj2 = Map::new();
+        for i in 0..n {
+            obj.insert(format!("k{:04}", (i * 7919) % 10007), json!(i));
+            obj2.insert(format!("k{:04}", (i * 7919) % 10007 + i % 2), json!(-(i as i64)));
+        }
+        let doc = json!({
+            "desc": (0..n as i64).rev().map(|i| i / 2).collect::<Vec<i64>>(),
+            "saw": (0..n as i64).map(|i| (i * 37) % 11).collect::<Vec<i64>>(),
+            "strs": (0..n).map(word).collect::<Vec<String>>(),
+            "recs": (0..n).map(|i| json!({"id": i, "k": (n - i) / 3, "s": word(i)})).collect::<Vec<Value>>(),
+            "str": (0..n).map(|i| ["a", "b", "é", "日", "y", "z"][i % 6]).collect::<String>(),
+            "obj": obj, "obj2": obj2,
+        });
+        let input = rcvar_of(&doc);
+        for (k, text) in EXPRS.iter().enumerate() {
+            rep.evaluations += 1;
+            let want = ev.eval(&trees[k], &doc);
+            let got = guarded(|| jmespath::compile(text).and_then(|e| e.search(&input)));
+            let name = text.split('(').next().unwrap_or("");
+            let ok = match (&want, &got) {
+                (Err(e), _) if matches!(e.kind, ErrKind::Unconstrained(_)) => true,
+                (Ok(x), Ok(Ok(g))) => value_of(g).map_or(false, |g| match name {
+                    "to_string" => g.as_str().and_then(|t| parse_json(t, 64).ok()).map_or(false, |p| val_eq(&p, &doc["saw"], 0.0)),
+                    "avg" | "sum" => val_eq(x, &g, 1e-9),
+                    _ => canon_value(x) == canon_value(&g) || (matches!(name, "max" | "min") && val_eq(x, &g, 0.0)),
+                }),
+                (Err(e), Ok(Err(g))) => e.class() == err_class(g),
+                _ => false,
+            };
+            if ok {
+                rep.count("size_sweep_ok");
+                if n > 1 {
+                    rep.nontrivial(fnv(format!("size|{}|{}", text, n).as_bytes()));
+                }
+            } else {
+                let shorten = |s: String| if s.len() > 400 { format!("{}… ({} bytes)", s.chars().take(400).collect::<String>(), s.len()) } else { s };
+                rep.violation(
+                    &format!("C02/wrong-value/size-sweep/fn={}", name),
+                    json!({"expression": text, "size": n, "expected": shorten(format!("{:?}", want.as_ref().map(|v| v.to_string()).map_err(|e| e.class()))),
+                           "got": shorten(format!("{:?}", got.map(|r| r.map(|v| v.to_string()).map_err(|e| e.to_string()))))}),
+                );
+            }
+        }
+    }
 }
 
 fn direct_call(rep: &mut Report, ev: &Evaluator, strict: &Opts, rng: &mut Rng, i: u64) {
